@@ -6,7 +6,7 @@ import math
 import os
 from fractions import Fraction
 
-from common import CORPUS_DIR, call, frac, rat, unrat
+from common import CORPUS_DIR, InfraError, call, frac, rat, unrat
 
 RULE = ("plain intervals: end points and arguments on the dyadic grid k/16 (|k|<=4096) so float + - * and /2^j are exact, ops "
         "mk/set_start/set_end/contains/containsI/overlaps/intersection/add/sub/mul/div/round/length/gt/lt with arguments at the "
@@ -24,6 +24,62 @@ REQUIRED_BUCKETS = ["plain/contains", "plain/mul-neg", "plain/div-neg", "plain/m
                     "angle/setter-then-query"]
 
 BAND = Fraction(1, 10 ** 9)
+BAND32 = Fraction(1, 10 ** 5)        # cases in which a numpy float32 takes part (24-bit arithmetic inside the library)
+
+# ------------------------------------------------------------------------------------------------ typed numbers
+# A number in a case is a JSON int / float (Python int / float) or a string "<tag>:<value>" for a numpy scalar.
+_NP = {"f64": "float64", "f32": "float32", "i64": "int64", "i32": "int32"}
+
+
+def enc(v):
+    """Python / numpy scalar -> JSON-able case value."""
+    import numpy as np
+    for tag, name in _NP.items():
+        if type(v) is getattr(np, name):
+            return f"{tag}:{int(v)}" if tag[0] == "i" else f"{tag}:{float(v)!r}"
+    return v
+
+
+def val(v):
+    """Case value -> the Python / numpy scalar handed to the library."""
+    if isinstance(v, str):
+        import numpy as np
+        tag, _, txt = v.partition(":")
+        return getattr(np, _NP[tag])(int(txt) if tag[0] == "i" else float(txt))
+    if isinstance(v, list):
+        return [val(x) for x in v]
+    return v
+
+
+NUM_KEYS = ("a", "b", "c", "d", "x", "s", "e", "thetas")
+
+
+def dec(case):
+    """Shallow copy of a case with its numbers decoded."""
+    return {k: (val(v) if k in NUM_KEYS else v) for k, v in case.items()}
+
+
+def has32(case):
+    return any(t in json.dumps(case) for t in ('"f32:', '"i32:'))
+
+
+def retype(r, v, allow32=True, p=0.5):
+    """Give the number v another scalar type of the same value (int where integral, numpy 64/32-bit scalars)."""
+    import numpy as np
+    if isinstance(v, str) or r.random() >= p:
+        return v
+    f = float(v)
+    opts = ["float", "f64"]
+    if f.is_integer() and abs(f) < 2 ** 30:
+        opts += ["int", "i64"] + (["i32"] if allow32 else [])
+    if allow32 and float(np.float32(f)) == f:
+        opts.append("f32")
+    t = r.choice(opts)
+    if t == "float":
+        return f
+    if t == "int":
+        return int(f)
+    return enc(getattr(np, _NP[t])(int(f) if t[0] == "i" else f))
 
 
 def _tau():
@@ -61,8 +117,17 @@ def gen_plain(ctx):
         case["x"] = r.choice([0, 0.0, -1, -0.5, 2, 0.25, -3, grid(r, 64)])
     elif op == "div":
         case["x"] = r.choice([1, -1, 2, -2, 0.5, -0.5, 4.0, -8.0, 0.125, -0.0625])
+        if r.random() < 0.04:
+            case["x"] = r.choice([0, 0.0, -0.0])                # Python zero: ZeroDivisionError (numpy zeros: not admissible, inf/nan)
     elif op == "round":
-        case["n"] = r.choice([None, 0, 1, 2])
+        case["n"] = r.choice([None, 0, 1, 2, -1])
+    if r.random() < 0.3 and not (op == "div" and case["x"] == 0):
+        # the same values as other scalar types; every value of this grid and every result is exact in float32 as well,
+        # except decimal rounding (n > 0) of a float32
+        a32 = not (op == "round" and (case["n"] or 0) > 0)
+        for k in ("a", "b", "x", "c", "d"):
+            if k in case:
+                case[k] = retype(r, case[k], allow32=a32)
     return case
 
 
@@ -70,8 +135,13 @@ def gen_plain_float(ctx):
     """Arbitrary doubles (oracle only, relative tolerance)."""
     r = ctx.rng
 
+    big = r.random() < 0.25                      # huge / tiny magnitudes (results that over- or underflow are excluded)
+    e0 = r.randint(-300, 300) if big else r.randint(-30, 30)
+
     def f():
-        return r.choice([-1, 1]) * r.random() * 10.0 ** r.randint(-30, 30)
+        if big and r.random() < 0.1:
+            return r.choice([5e-324, -5e-324, 2.2250738585072014e-308, 1.7976931348623157e308, -1.7976931348623157e308, 0.0, -0.0])
+        return r.choice([-1, 1]) * r.random() * 10.0 ** (e0 + r.randint(-8, 8) if big else r.randint(-30, 30))
     a, b = sorted([f(), f()])
     op = r.choice(["contains", "overlaps", "intersection", "add", "sub", "mul", "div", "containsI"])
     case = {"kind": "plainf", "op": op, "a": a, "b": b}
@@ -88,6 +158,56 @@ def _iv(i):
     return None if i is None else [rat(i.start), rat(i.end)]
 
 
+def plain_apply(i, op, case):
+    """One operation of the real Interval object `i`; returns the canonical result (intervals as [start, end])."""
+    from commonroad.common.util import Interval
+
+    def other():
+        return Interval(case["c"], case["d"])
+    if op == "set_start":
+        i.start = case["x"]
+        return _iv(i)
+    if op == "set_end":
+        i.end = case["x"]
+        return _iv(i)
+    if op in ("contains", "in"):
+        v1 = i.contains(case["x"])
+        v2 = case["x"] in i
+        assert bool(v1) == bool(v2), "contains and __contains__ differ"
+        return bool(v1)
+    if op in ("containsI", "inI"):
+        o = other()
+        v1 = i.contains(o)
+        v2 = o in i
+        assert bool(v1) == bool(v2), "contains(interval) and `interval in` differ"
+        return bool(v1)
+    if op == "overlaps":
+        return bool(i.overlaps(other()))
+    if op == "intersection":
+        return _iv(i.intersection(other()))
+    if op == "add":
+        return _iv(i + case["x"])
+    if op == "sub":
+        return _iv(i - case["x"])
+    if op == "mul":
+        return _iv(i * case["x"])
+    if op == "div":
+        return _iv(i / case["x"])
+    if op == "round":
+        return _iv(round(i, case["n"]))
+    if op == "length":
+        return rat(i.length)
+    if op == "gt":
+        return bool(i > case["x"])
+    if op == "lt":
+        return bool(i < case["x"])
+    if op == "gtI":
+        return bool(i > other())
+    if op == "ltI":
+        return bool(i < other())
+    raise RuntimeError(op)
+
+
 def run_plain_impl(case):
     """Run the real Interval; returns canonical {'ok': ..} / {'err': cls}."""
     from commonroad.common.util import Interval
@@ -96,50 +216,7 @@ def run_plain_impl(case):
         r = call(Interval, case["a"], case["b"])
         return {"ok": _iv(r[1])} if r[0] == "ok" else {"err": r[1]}
     i = Interval(case["a"], case["b"])
-
-    def other():
-        return Interval(case["c"], case["d"])
-
-    def do():
-        if op == "set_start":
-            i.start = case["x"]
-            return _iv(i)
-        if op == "set_end":
-            i.end = case["x"]
-            return _iv(i)
-        if op == "contains":
-            v1 = i.contains(case["x"])
-            v2 = case["x"] in i
-            assert v1 == v2, "contains and __contains__ differ"
-            return bool(v1)
-        if op == "containsI":
-            return bool(i.contains(other()))
-        if op == "overlaps":
-            return bool(i.overlaps(other()))
-        if op == "intersection":
-            return _iv(i.intersection(other()))
-        if op == "add":
-            return _iv(i + case["x"])
-        if op == "sub":
-            return _iv(i - case["x"])
-        if op == "mul":
-            return _iv(i * case["x"])
-        if op == "div":
-            return _iv(i / case["x"])
-        if op == "round":
-            return _iv(round(i, case["n"]))
-        if op == "length":
-            return rat(i.length)
-        if op == "gt":
-            return bool(i > case["x"])
-        if op == "lt":
-            return bool(i < case["x"])
-        if op == "gtI":
-            return bool(i > other())
-        if op == "ltI":
-            return bool(i < other())
-        raise RuntimeError(op)
-    r = call(do)
+    r = call(plain_apply, i, op, case)
     return {"ok": r[1]} if r[0] == "ok" else {"err": r[1], "msg": r[2]}
 
 
@@ -156,13 +233,13 @@ def plain_oracle(case):
         return {"ok": pr(x, b)} if x <= b else {"err": "assert"}
     if op == "set_end":
         return {"ok": pr(a, x)} if a <= x else {"err": "assert"}
-    if op == "contains":
+    if op in ("contains", "in"):
         return {"ok": a <= x <= b}
-    if op == "containsI":
+    if op in ("containsI", "inI"):
         return {"ok": a <= c and d <= b}
     if op == "overlaps":
         return {"ok": max(a, c) <= min(b, d)}
-    if op == "intersection":
+    if op in ("intersection", "inter"):
         return {"ok": pr(max(a, c), min(b, d)) if max(a, c) <= min(b, d) else None}
     if op == "add":
         return {"ok": pr(a + x, b + x)}
@@ -171,8 +248,12 @@ def plain_oracle(case):
     if op == "mul":
         return {"ok": pr(min(a * x, b * x), max(a * x, b * x))}
     if op == "div":
+        if x == 0:
+            return {"err": "zero-div"}                       # not an admissible scalar: no verdict, correspondence only
         return {"ok": pr(min(a / x, b / x), max(a / x, b / x))}
     if op == "round":
+        if "exact_round" in case:                            # histories: own half-even decimal rounding of the exact value
+            return {"ok": pr(round_exact(a, case["n"]), round_exact(b, case["n"]))}
         ra, rb = frac(round(case["a"], case["n"])), frac(round(case["b"], case["n"]))
         return {"ok": pr(ra, rb)}
     if op == "length":
@@ -188,6 +269,14 @@ def plain_oracle(case):
     raise RuntimeError(op)
 
 
+def round_exact(v: Fraction, n):
+    """round(v, n) for an exactly known value: half-even at n decimals, then (n > 0) the nearest double."""
+    n = n or 0
+    q = round(v * Fraction(10) ** n)                          # Fraction.__round__: half to even
+    w = Fraction(q) / Fraction(10) ** n
+    return Fraction(*float(w).as_integer_ratio()) if n > 0 else w
+
+
 def close(u, v, rel=Fraction(1, 10 ** 12)):
     """Canonical results equal up to relative tolerance on rationals."""
     if isinstance(u, list) and isinstance(v, list) and len(u) == len(v):
@@ -201,10 +290,22 @@ def close(u, v, rel=Fraction(1, 10 ** 12)):
     return u == v
 
 
-def run_plain(ctx, case):
+FMAX, FMIN = Fraction(10) ** 300, Fraction(1, 10 ** 300)
+
+
+def run_plain(ctx, raw):
+    case = dec(raw)
     op = case["op"]
-    ctx.case(case)
+    ctx.case(raw)
     ctx.tag("plain/" + op)
+    if any(isinstance(raw.get(k), str) for k in ("a", "b", "c", "d", "x")):
+        ctx.tag("plain/numpy-operand")
+        if has32(raw):
+            ctx.tag("plain/32bit-operand")
+    if "x" in case and isinstance(case["x"], int) and not isinstance(case["x"], bool):
+        ctx.tag("plain/int-operand")
+    if frac(case["a"]) == frac(case["b"]):
+        ctx.tag("plain/zero-length")
     impl = run_plain_impl(case)
     impl_c = {k: v for k, v in impl.items() if k != "msg"}
     want = plain_oracle(case)
@@ -221,19 +322,31 @@ def run_plain(ctx, case):
         if op == "round":
             args["ra"], args["rb"] = rat(round(case["a"], case["n"])), rat(round(case["b"], case["n"]))
         model = ctx.driver.ask("C16", op, args)
-        ctx.compare(case, impl_c, model, f"Interval.{op} vs CR.Iv")
+        ctx.compare(raw, impl_c, model, f"Interval.{op} vs CR.Iv")
+        if op == "div" and frac(case["x"]) == 0:
+            ctx.tag("plain/div-zero")
+            ctx.excluded += 1                                 # dividing by zero is not admissible: no oracle verdict
+            return
         ok = impl_c == want
     else:
         ctx.tag("plain/arbitrary-floats")
+        if op in ("mul", "div", "add", "sub") and "ok" in want:
+            mags = [abs(unrat(q)) for q in want["ok"]]
+            if any(m != 0 and not (FMIN <= m <= FMAX) for m in mags):
+                ctx.tag("plain/overflow-excluded")
+                ctx.excluded += 1                             # the exact image is not representable as doubles
+                return
+        if max(abs(frac(case["a"])), abs(frac(case["b"]))) > Fraction(10) ** 100:
+            ctx.tag("plain/huge")
         ok = ("ok" in impl_c and "ok" in want and close(impl_c["ok"], want["ok"])) or impl_c == want
     if not ok:
         if "err" in impl_c and "err" not in want:
-            ctx.fail(f"C16/Interval.{op}/raises-{impl_c['err']}", f"Interval({case['a']},{case['b']}).{op} raised {impl.get('msg')}", case)
+            ctx.fail(f"C16/Interval.{op}/raises-{impl_c['err']}", f"Interval({case['a']!r},{case['b']!r}).{op} raised {impl.get('msg')}", raw)
         elif "err" in want:
-            ctx.fail(f"C16/Interval.{op}/not-rejected", f"Interval {op} with start > end was not rejected: {impl_c}", case)
+            ctx.fail(f"C16/Interval.{op}/not-rejected", f"Interval {op} with start > end was not rejected: {impl_c}", raw)
         else:
-            ctx.fail(f"C16/Interval.{op}/wrong-set", f"Interval({case['a']},{case['b']}).{op}({ {k: case[k] for k in case if k in 'xcdn'} }) = "
-                     f"{impl_c} but the set semantics give {want}", case)
+            ctx.fail(f"C16/Interval.{op}/wrong-set", f"Interval({case['a']!r},{case['b']!r}).{op}({ {k: case[k] for k in case if k in 'xcdn'} }) = "
+                     f"{impl_c} but the set semantics give {want}", raw)
 
 
 # ------------------------------------------------------------------------------------------------ angle intervals
@@ -448,9 +561,288 @@ def run_angle(ctx, case):
         member_checks(sh, case["thetas"], A, B, op, shift=shift)
 
 
+# ------------------------------------------------------------------------------------------------ histories on plain intervals
+
+PROG_MUT = ["set_start", "set_end", "add", "sub", "mul", "div", "round", "inter", "copy"]
+PROG_QRY = ["contains", "in", "containsI", "inI", "overlaps", "intersection", "length", "gt", "lt", "gtI", "ltI", "noise"]
+COPIES = ["copy", "deepcopy", "pickle", "ctor-from-iter", "ctor-from-props"]
+NOISE = ["hash", "eq-self", "eq-copy", "eq-number", "str", "repr", "iter", "getters"]
+
+
+def _sim_step(lo, hi, st):
+    """Set semantics of one history step on the exact state [lo, hi] (generator side: picks absolute arguments)."""
+    op = st["op"]
+    x = frac(val(st["x"])) if "x" in st else None
+    if op == "set_start":
+        return (x, hi) if x <= hi else (lo, hi)
+    if op == "set_end":
+        return (lo, x) if lo <= x else (lo, hi)
+    if op == "add":
+        return lo + x, hi + x
+    if op == "sub":
+        return lo - x, hi - x
+    if op == "mul":
+        return min(lo * x, hi * x), max(lo * x, hi * x)
+    if op == "div":
+        return (lo, hi) if x == 0 else (min(lo / x, hi / x), max(lo / x, hi / x))
+    if op == "round":
+        return round_exact(lo, st["n"]), round_exact(hi, st["n"])
+    if op == "inter":
+        c, d = frac(val(st["c"])), frac(val(st["d"]))
+        return (max(lo, c), min(hi, d)) if max(lo, c) <= min(hi, d) else (lo, hi)
+    return lo, hi
+
+
+def _fl(v: Fraction):
+    """A Fraction of the dyadic grid as the float / int it is."""
+    return int(v) if v.denominator == 1 and abs(v) < 2 ** 40 and (v.numerator % 2 == 0 or v == 1) else float(v)
+
+
+def gen_prog(ctx):
+    """A history on ONE Interval object: setters after construction and after queries (several in a row, crossing ones
+    that must be rejected, the same value handed back), arithmetic results fed into further operations, copies, read-only
+    queries in between. Arguments are absolute numbers chosen next to the state the set semantics predict."""
+    r = ctx.rng
+
+    def g(lim=256):
+        if r.random() < 0.1:
+            return r.choice([0, 0.0, -0.0, 1, -1])
+        k = r.randint(-lim, lim)
+        return k / 16.0 if r.random() < 0.7 else k // 16
+    a, b = sorted([g(), g()], key=float)
+    if r.random() < 0.12:
+        b = a
+    lo, hi = frac(a), frac(b)
+    steps = []
+    n = r.randint(3, 9)
+    while len(steps) < n:
+        op = r.choice(PROG_MUT + ["set_start", "set_end", "mul", "div"] if r.random() < 0.6 else PROG_QRY)
+        st = {"op": op}
+        e16 = Fraction(1, 16)
+        if max(lo.denominator, hi.denominator) > 2 ** 20 and op in ("add", "sub", "mul", "div", "length"):
+            continue            # after a decimal rounding the bounds are off the dyadic grid: float arithmetic would round
+        near = [lo, hi, lo - e16, lo + e16, hi - e16, hi + e16, (lo + hi) / 2, frac(g()), Fraction(int(lo)), Fraction(int(hi))]
+        if op == "set_start":
+            st["x"] = _fl(r.choice([lo, hi, hi + e16, hi + 3, lo - 1, lo - e16, (lo + hi) / 2, hi - e16, frac(g())]))
+        elif op == "set_end":
+            st["x"] = _fl(r.choice([hi, lo, lo - e16, lo - 3, hi + 1, hi + e16, (lo + hi) / 2, lo + e16, frac(g())]))
+        elif op in ("add", "sub", "contains", "in", "gt", "lt"):
+            st["x"] = _fl(r.choice(near))
+        elif op == "mul":
+            if max(abs(lo), abs(hi)) > 2 ** 18 or max(lo.denominator, hi.denominator) > 2 ** 14:
+                continue
+            st["x"] = r.choice([0, 0.0, -0.0, -1, -0.5, 2, 0.25, -3, 1, g(64)])
+        elif op == "div":
+            if max(abs(lo), abs(hi)) > 2 ** 18 or max(lo.denominator, hi.denominator) > 2 ** 14:
+                continue
+            st["x"] = r.choice([1, -1, 2, -2, 0.5, -0.5, 4.0, -8.0, 0.125, -0.0625] + ([0, 0.0] if r.random() < 0.1 else []))
+        elif op == "round":
+            st["n"] = r.choice([None, 0, 1, 2, -1])
+        elif op in ("inter", "containsI", "inI", "overlaps", "intersection", "gtI", "ltI"):
+            c, d = sorted([r.choice(near), r.choice(near)])
+            st["c"], st["d"] = _fl(c), _fl(d)
+        elif op == "copy":
+            st["how"] = r.choice(COPIES)
+        elif op == "noise":
+            st["what"] = r.choice(NOISE)
+        steps.append(st)
+        lo, hi = _sim_step(lo, hi, st)
+    case = {"kind": "prog", "a": a, "b": b, "steps": steps}
+    if r.random() < 0.3:
+        import numpy as np
+        nums = [frac(a), frac(b)] + [frac(st[k]) for st in steps for k in ("x", "c", "d") if k in st]
+        lo, hi = frac(a), frac(b)
+        for st in steps:
+            lo, hi = _sim_step(lo, hi, st)
+            nums += [lo, hi]
+        a32 = all(float(np.float32(float(v))) == v for v in nums) and not any(st["op"] == "round" and (st["n"] or 0) > 0 for st in steps)
+        case["a"], case["b"] = retype(r, a, a32), retype(r, b, a32)
+        for st in steps:
+            for k in ("x", "c", "d"):
+                if k in st and not (st["op"] == "div" and frac(st[k]) == 0):
+                    st[k] = retype(r, st[k], a32, p=0.4)
+    return case
+
+
+def _copy_of(i, how):
+    import copy
+    import pickle
+    if how == "copy":
+        return copy.copy(i)
+    if how == "deepcopy":
+        return copy.deepcopy(i)
+    if how == "pickle":
+        return pickle.loads(pickle.dumps(i))
+    if how == "ctor-from-iter":
+        return type(i)(*i)                                   # __iter__ yields start, end
+    return type(i)(i.start, i.end)
+
+
+def _noise(i, what):
+    """Read-only entry points the property does not speak about; they must not disturb what it does speak about."""
+    import copy
+    import warnings
+    with warnings.catch_warnings():
+        warnings.simplefilter("ignore")
+        if what == "hash":
+            return call(hash, i)
+        if what == "eq-self":
+            return call(lambda: i == i)
+        if what == "eq-copy":
+            return call(lambda: i == copy.copy(i))
+        if what == "eq-number":
+            return call(lambda: i == 3)
+        if what == "str":
+            return call(str, i)
+        if what == "repr":
+            return call(repr, i)
+        if what == "iter":
+            return call(tuple, i)
+        return call(lambda: (i.start, i.end, i.length))
+
+
+def run_prog(ctx, raw):
+    from commonroad.common.util import Interval
+    ctx.case(raw)
+    ctx.tag("prog/case")
+    a, b = val(raw["a"]), val(raw["b"])
+    if has32(raw):
+        ctx.tag("prog/32bit-operand")
+    r0 = call(Interval, a, b)
+    if r0[0] != "ok":
+        if frac(a) <= frac(b):
+            ctx.fail(f"C16/Interval.mk/raises-{r0[1]}", f"Interval({a!r},{b!r}) raised {r0[2]}", raw)
+        return
+    cur = r0[1]
+    lo, hi = frac(a), frac(b)
+    olds = []                       # (object, expected bounds, description): objects the history has moved on from
+    msteps, mimpl, rtab = [], [], []
+    nset = 0
+    prev_failed = False
+    for k, st in enumerate(raw["steps"]):
+        op = st["op"]
+        desc = f"step {k} ({op}) of a history on Interval({a!r},{b!r})"
+        sub = dict({kk: (val(v) if kk in ("x", "c", "d") else v) for kk, v in st.items()}, a=lo, b=hi, kind="plain", exact_round=True)
+        if op == "copy":
+            ctx.tag("prog/copy-" + st["how"])
+            rc = call(_copy_of, cur, st["how"])
+            if rc[0] != "ok":
+                ctx.fail(f"C16/history/Interval.copy/raises-{rc[1]}", f"{desc}: {st['how']} raised {rc[2]}", raw)
+                return
+            olds.append((cur, (lo, hi), f"the object a {st['how']} was taken from at step {k}"))
+            cur = rc[1]
+            if type(cur) is not Interval or (frac(cur.start), frac(cur.end)) != (lo, hi):
+                ctx.fail("C16/history/Interval.copy/wrong-set", f"{desc}: the {st['how']} is [{cur.start},{cur.end}], original [{float(lo)},{float(hi)}]", raw)
+                return
+            continue
+        if op == "noise":
+            ctx.tag("prog/noise")
+            _noise(cur, st["what"])
+        else:
+            want = plain_oracle(sub)
+            before = cur
+            rr = call(plain_apply, cur, "intersection" if op == "inter" else op, sub)
+            impl = {"ok": rr[1]} if rr[0] == "ok" else {"err": rr[1]}
+            chain = op in ("add", "sub", "mul", "div", "round", "inter")
+            if prev_failed:
+                ctx.tag("prog/op-after-failed-op")
+            prev_failed = "err" in impl
+            if op in ("set_start", "set_end"):
+                nset += 1
+                ctx.tag("prog/setter-rejected" if "err" in want else "prog/setter-ok")
+                if nset >= 2:
+                    ctx.tag("prog/several-setters")
+                if k > 0 and raw["steps"][k - 1]["op"] in PROG_QRY:
+                    ctx.tag("prog/setter-after-query")
+                if "err" not in want and frac(sub["x"]) in (lo, hi):
+                    ctx.tag("prog/setter-same-or-other-bound")
+            if op == "inter":
+                # intersection fed back: the history continues with the result (None: with the object itself)
+                want = {"ok": want["ok"] if want["ok"] is not None else [rat(lo), rat(hi)]}
+                if "ok" in impl and impl["ok"] is None:
+                    impl = {"ok": [rat(lo), rat(hi)]}
+            zero_div = op == "div" and frac(sub["x"]) == 0
+            if zero_div:
+                ctx.tag("prog/div-zero")
+                # not an admissible scalar (ZeroDivisionError for Python bounds, inf / nan for numpy ones): no verdict on the
+                # step itself; what counts is that the object is untouched and the history goes on
+                impl = {"err": "zero-div"}
+            elif impl != want:
+                if "err" in impl and "err" not in want:
+                    ctx.fail(f"C16/history/Interval.{op}/raises-{impl['err']}", f"{desc} on [{float(lo)},{float(hi)}] raised {rr[2]}", raw)
+                elif "err" in want:
+                    ctx.fail(f"C16/history/Interval.{op}/not-rejected", f"{desc} on [{float(lo)},{float(hi)}]: crossing bound accepted: {impl}", raw)
+                else:
+                    ctx.fail(f"C16/history/Interval.{op}/wrong-set", f"{desc} on [{float(lo)},{float(hi)}] with "
+                             f"{ {q: st[q] for q in st if q != 'op'} } = {impl}, the set semantics give {want}", raw)
+                return
+            if op in PROG_MUT:
+                st_m = {"op": op}
+                if "x" in st:
+                    st_m["x"] = rat(sub["x"])
+                if op == "round":
+                    st_m["n"] = st["n"] or 0
+                    for v in (cur.start, cur.end):
+                        rtab.append([st["n"] or 0, rat(v), rat(round(v, st["n"]))])
+                if op == "inter":
+                    st_m["c"], st_m["d"] = rat(sub["c"]), rat(sub["d"])
+                msteps.append(st_m)
+                mimpl.append(impl)
+            elif op != "noise" and ctx.driver is not None:
+                q = {"in": "contains", "inI": "containsI"}.get(op, op)
+                args = {kk: rat(v) for kk, v in sub.items() if kk in ("a", "b", "c", "d", "x")}
+                ctx.compare(raw, impl, ctx.driver.ask("C16", q, args), f"Interval.{op} inside a history vs CR.Iv")
+            if chain and "ok" in impl and not zero_div:
+                ctx.tag("prog/chain")
+                # the operation returned a NEW object; the history goes on with it, the operand must stay as it was
+                res = _chain_result(cur, op, sub)
+                if res is not None:
+                    olds.append((cur, (lo, hi), f"the operand of {op} at step {k}"))
+                    cur = res
+                lo, hi = unrat(want["ok"][0]), unrat(want["ok"][1])
+            elif op in ("set_start", "set_end") and "ok" in want:
+                lo, hi = unrat(want["ok"][0]), unrat(want["ok"][1])
+            if cur is not before and type(cur) is not Interval:
+                ctx.fail(f"C16/history/Interval.{op}/result-type", f"{desc}: result is a {type(cur).__name__}", raw)
+                return
+        # the object after the step denotes exactly the predicted set (a query / a raising step must not move it)
+        if (frac(cur.start), frac(cur.end)) != (lo, hi):
+            ctx.fail(f"C16/history/Interval.{op}/object-changed", f"{desc}: the object is now [{cur.start},{cur.end}], "
+                     f"the set semantics give [{float(lo)},{float(hi)}]", raw)
+            return
+    for o, (elo, ehi), what in olds:
+        if (frac(o.start), frac(o.end)) != (elo, ehi):
+            ctx.fail("C16/history/Interval/earlier-object-changed", f"{what} was [{float(elo)},{float(ehi)}] and is now [{o.start},{o.end}] "
+                     f"after the history went on with another object", raw)
+            return
+    if msteps and ctx.driver is not None:
+        ctx.tag("prog/model-trace")
+        model = ctx.driver.ask("C16", "prog", {"a": rat(a), "b": rat(b), "steps": msteps, "rtab": rtab})
+        ctx.compare(raw, {"trace": mimpl, "final": [rat(cur.start), rat(cur.end)]}, model, "history on an Interval vs CR.Iv.runOps / finalOps")
+
+
+def _chain_result(cur, op, sub):
+    """Re-run a chaining operation to get the resulting OBJECT (plain_apply returned its canonical form)."""
+    from commonroad.common.util import Interval
+    x = sub.get("x")
+    if op == "add":
+        return cur + x
+    if op == "sub":
+        return cur - x
+    if op == "mul":
+        return cur * x
+    if op == "div":
+        return cur / x
+    if op == "round":
+        return round(cur, sub["n"])
+    return cur.intersection(Interval(sub["c"], sub["d"]))     # None: keep the object
+
+
 def run_case(ctx, case):
     if case["kind"] in ("plain", "plainf"):
         run_plain(ctx, case)
+    elif case["kind"] == "prog":
+        run_prog(ctx, case)
     else:
         run_angle(ctx, case)
 
@@ -462,6 +854,8 @@ def run(ctx):
         run_case(ctx, gen_plain(ctx))
     for _ in range(ctx.n(800)):
         run_case(ctx, gen_plain_float(ctx))
+    for _ in range(ctx.n(900)):
+        run_case(ctx, gen_prog(ctx))
     for _ in range(ctx.n(2500)):
         run_case(ctx, gen_angle(ctx))
 
